@@ -142,8 +142,8 @@ def check(run, M, tier):
             if isinstance(s, ast.Assign) and unparse(s.targets[0]) == "mask":
                 order.append("def")
             elif isinstance(s, ast.If) and unparse(s.test) == "crop_corner":
-                inner = [unparse(x).replace(" ", "") for x in s.body]
-                order.append("crop" if inner == ["mask*=r<1"] else "crop?")
+                inner = [unparse(x).replace(" ", "").replace("(", "").replace(")", "") for x in s.body]
+                order.append("crop" if inner in (["mask*=r<1"], ["mask=mask*r<1"], ["mask=r<1*mask"]) else "crop?")
             elif isinstance(s, ast.Assign) and unparse(s.targets[0]) == "actual_accel":
                 order.append("accel")
         run.check(order == ["def", "crop", "accel"], "B4", "poisson loop order", f.loc(w), "mask defined, cropped by r < 1 under crop_corner, then measured",
